@@ -1794,6 +1794,12 @@ val s_LOOPBACK : str
 
 val is_local : str -> bool
 
+val spec_get_request : str -> (z * z) option
+
+val spec_window : 'a1 list -> z -> z -> 'a1 list
+
+val response_body : str -> str option
+
 val sTART_BUF : z
 
 val mAX_TOKEN : z
@@ -2656,6 +2662,50 @@ val filter_verdict :
   bool -> bool -> bool -> bool -> bool -> str -> (str -> str) -> (nat -> str
   -> bool) -> str list -> str -> z -> bool * bool
 
+val str_fields_fuel : nat -> str -> str -> str -> str list
+
+val str_fields : str -> str -> str list
+
+val in_set : str -> z -> bool
+
+val set_fields_fuel : nat -> str -> bool -> str -> str -> str list
+
+val set_fields : str -> bool -> str -> str list
+
+type field_delim =
+| FAwk
+| FStr of str
+| FSet of str * bool
+
+val fields_of : field_delim -> str -> str list
+
+type fexpr = z * z
+
+val field_pos : z -> z -> z
+
+val select_fields : str list -> fexpr -> str list
+
+val exprs_text : str list -> fexpr list -> str
+
+val ends_with : str -> str -> bool
+
+val strip_last_delim : field_delim -> str -> str
+
+val decimal_fuel : nat -> nat -> str
+
+val decimal : nat -> str
+
+type tpart =
+| TLit of str
+| TIndex
+| TFields of fexpr list
+
+type accept_expr =
+| AFields of fexpr list
+| ATemplate of tpart list
+
+val accept_text : field_delim -> accept_expr -> nat -> str -> str
+
 val exitOk : z
 
 val exitNoMatch : z
@@ -2902,6 +2952,18 @@ val as_event : val0 -> sel_event
 val as_ending : val0 -> ending
 
 val d_session_spec : val0 -> val0
+
+val as_field_delim : val0 -> field_delim
+
+val as_fexprs : val0 -> fexpr list
+
+val as_tpart : val0 -> tpart
+
+val as_accept_expr : val0 -> accept_expr option
+
+val d_session_spec_fields : val0 -> val0
+
+val d_accept_text : val0 -> val0
 
 val dispatch_output : z -> val0 -> val0 option
 
@@ -4357,21 +4419,21 @@ val nat_list_eqb : nat list -> nat list -> bool
 
 val partition_ok : str -> str -> str list -> nat list -> bool
 
-type fexpr =
+type fexpr0 =
 | FIdx of z
 | FRange of z option * z option
 
 val resolve0 : z -> z -> z
 
-val sel_bounds : fexpr -> z -> z * z
+val sel_bounds : fexpr0 -> z -> z * z
 
-val select_fields : fexpr -> 'a1 list -> 'a1 list
+val select_fields0 : fexpr0 -> 'a1 list -> 'a1 list
 
-val select_first : fexpr -> nat -> nat
+val select_first : fexpr0 -> nat -> nat
 
-val select_text : fexpr -> str list -> str
+val select_text : fexpr0 -> str list -> str
 
-val select_start : fexpr -> nat -> str list -> nat
+val select_start : fexpr0 -> nat -> str list -> nat
 
 val digits_of : nat -> z -> str -> str
 
@@ -4381,13 +4443,13 @@ val itoa1 : z -> str
 
 val dOT1 : z
 
-val print_fexpr : fexpr -> str
+val print_fexpr : fexpr0 -> str
 
 val is_space1 : z -> bool
 
 val trim_right1 : (z -> bool) -> str -> str
 
-val inside_selection : fexpr -> nat -> str list -> nat -> nat -> bool
+val inside_selection : fexpr0 -> nat -> str list -> nat -> nat -> bool
 
 type token = { t_text0 : str; t_prefix : z }
 
@@ -4500,7 +4562,7 @@ val as_ranges0 : val0 -> range0 list
 
 val as_optz1 : val0 -> z option
 
-val as_fexpr : val0 -> fexpr
+val as_fexpr : val0 -> fexpr0
 
 val mf_lookup :
   (str * ((nat * nat) * nat list) option) list -> str -> ((nat * nat) * nat
@@ -4530,7 +4592,7 @@ type wopts = { o_file : bool; o_dir : bool; o_follow : bool; o_hidden : bool }
 
 val starts_with0 : str -> str -> bool
 
-val ends_with : str -> str -> bool
+val ends_with0 : str -> str -> bool
 
 val has_slash : str -> bool
 
